@@ -36,7 +36,7 @@ def history(rng, n):
         ckeys = [k for k in (gen.key(i) for i in range(10)) if k.hex in cs["delegations"]["root"]["pubkeys"]]
         cthr = cs["delegations"]["root"]["threshold"]
         v = cs["version"]
-        kind = rng.choice(["honest", "honest", "honest", "rotate", "rotate", "replay", "rollback", "skip", "revoked", "insufficient",
+        kind = rng.choice(["honest", "honest", "honest", "rotate", "rotate", "replay", "rollback", "skip", "revoked", "insufficient", "retyped-twin",
                            "self-appointed", "raw-sigs", "same-version", "junk", "honest-extra-junk", "superset-self-appointed", "superset-self-appointed", "odd-version", "stolen-signatures"])
         if kind in ("honest", "honest-extra-junk"):
             o = signed_root(rng, ckeys, rng.randint(1, len(ckeys)), v + 1, rng.sample(ckeys, cthr))
@@ -79,6 +79,22 @@ def history(rng, n):
         elif kind == "odd-version":
             # versions that are not integers, or floats at the edge of exactness (2**53 + 1 == 2**53 as a float): properly signed, never acceptable
             o = signed_root(rng, ckeys, cthr, rng.choice([float(v + 1), float(2**53), v + 1.5, str(v + 1), True, None, float("inf")]), ckeys)
+        elif kind == "retyped-twin":
+            # the honest successor in every respect (same type, times, delegations) except that its version is spelled as a float / bool / string — freshly and
+            # properly signed over its own bytes.  Offered right after the honest one was *checked* (accepted or not): nothing remembered from that check applies
+            honest = signed_root(rng, ckeys, cthr, v + 1, ckeys)
+            offers.append(honest)
+            labels.append("honest")
+            if schema.spec_verify_root(cur, honest) == {"OK"}:
+                past_keysets.append(ckeys)
+                cur = honest
+                accepted.append(honest)
+                v = v + 1
+            twin_signed = copy.deepcopy(cur["signed"])
+            twin_signed["version"] = rng.choice([float(v + 1) if v < 2**52 else str(v + 1), float(v + 1) if v < 2**52 else None, str(v + 1), (v + 1) + 0.5])
+            if twin_signed["version"] is None:
+                del twin_signed["version"]
+            o = gen.sign_env(gen.envelope(twin_signed), ckeys, True, rng)
         elif kind == "same-version":
             o = signed_root(rng, ckeys, cthr, v, ckeys)
         else:
